@@ -53,3 +53,8 @@ build/%.f16: harness/%.cpp $(HDRS)
 
 clean:
 	rm -rf build out
+
+# first build of everything the quick checks need (also rebuilt on demand by each check)
+SETUP_BINS := $(shell cat setup_bins.txt 2>/dev/null)
+setup: $(addprefix build/,$(SETUP_BINS))
+	@echo setup done
